@@ -8,6 +8,8 @@ import (
 	rj "verif/mc/internal/refjet"
 )
 
+var _ = core.Radix
+
 // C07 — lexical scoping of := / =, resolution order, '.' restored after every body.
 
 // program builder state: unique counters so that every written value is distinguishable.
@@ -25,7 +27,7 @@ func c07Read(name string) []rj.Stmt {
 
 func c07ReadDot() []rj.Stmt { return []rj.Stmt{rj.T(".="), rj.E(&rj.Dot{}), rj.T(";")} }
 
-const c07NAtoms = 10
+const c07NAtoms = 11
 
 func (b *c07B) atom(k int) []rj.Stmt {
 	switch k {
@@ -49,6 +51,8 @@ func (b *c07B) atom(k int) []rj.Stmt {
 		return c07Read("y")
 	case 9:
 		return []rj.Stmt{&rj.Assign{Decl: false, Names: []string{"y", "x"}, Vals: []rj.Expr{b.val("c"), b.val("d")}}}
+	case 10: // return does not stop execution (but ends an enclosing range after the current iteration)
+		return []rj.Stmt{&rj.Return{E: b.val("r")}}
 	}
 	panic("atom")
 }
@@ -199,6 +203,9 @@ var c07Flat = registerSpace(&e1Space{
 			}
 			si -= pow(c07NAtoms, int64(n))
 		}
+		if n == 3 && cfg >= 2 && !th {
+			return nil // quick: sequences of three under the two most common origins only
+		}
 		b := &c07B{}
 		var body []rj.Stmt
 		if pre > 0 {
@@ -322,6 +329,51 @@ var c07Capture = registerSpace(&e1Space{
 	},
 })
 
+// space "lookup": v, ok := m[k] / v, ok = m[k] declare / rebind v also when the key is absent
+var c07Lookup = registerSpace(&e1Space{
+	Prop: "C07", Name: "lookup",
+	N:    func(th bool) int64 { return 4 * 3 * (c07NFrames + 1) * 3 * 2 },
+	Gen: func(i int64, th bool) *rj.Program {
+		ix := core.Radix(i, 4, 3, c07NFrames+1, 3, 2)
+		b := &c07B{}
+		key := []string{"k", "absent", "absent", "k"}[ix[0]]
+		decl := ix[0] < 2
+		look := &rj.Assign{Decl: decl, Names: []string{"x", "ok"}, Vals: []rj.Expr{&rj.Index{X: rj.V("m"), I: rj.S(key)}}}
+		inner := []rj.Stmt{look, rj.T("ok="), rj.E(rj.V("ok")), rj.T(";")}
+		inner = append(inner, c07Read("x")...)
+		switch ix[1] {
+		case 1:
+			inner = append(inner, rj.Set("x", b.val("w")))
+			inner = append(inner, c07Read("x")...)
+		case 2:
+			inner = append(inner, &rj.If{Cond: rj.V("cT"), Then: append([]rj.Stmt{rj.Set("x", b.val("w"))}, c07Read("x")...)})
+			inner = append(inner, c07Read("x")...)
+		}
+		var body []rj.Stmt
+		switch ix[3] {
+		case 1:
+			body = append(body, rj.Let("x", rj.S("outer")), rj.Let("ok", rj.S("-")))
+		case 2:
+			body = append(body, rj.Let("ok", rj.S("-")))
+		}
+		if ix[2] == c07NFrames {
+			body = append(body, inner...)
+		} else {
+			body = append(body, b.frame(ix[2], inner)...)
+		}
+		body = append(body, c07Post()...)
+		p := b.program(body, ix[4])
+		mk := p.Mk
+		p.Mk = func(log *[]string) rj.Inputs {
+			in := mk(log)
+			in.Vars["m"] = map[string]string{"k": "mk"}
+			return in
+		}
+		return p
+	},
+	Extra: c07VarMapOracle,
+})
+
 func containsStr(s, sub string) bool {
 	for i := 0; i+len(sub) <= len(s); i++ {
 		if s[i:i+len(sub)] == sub {
@@ -356,10 +408,11 @@ func c07VarMapOracle(p *rj.Program, ref rj.Result, got rj.ImplResult) string {
 }
 
 func C07(r *core.Run) map[string]interface{} {
-	r.Rule = "statement sequences (<=3 over 10 atoms: := = multi-assign discard reads) inside each of 20 frames (if, if-let, range forms, block/yield/include with and without context and parameters, yield-with-content), nested to depth 2 (thorough 3), under 4 variable origins (local only, VarMap, global, both); loop-variable capture over every ranger kind; distinct = distinct reference outputs"
+	r.Rule = "statement sequences (<=3 over 11 atoms: := = multi-assign discard reads return) inside each of 20 frames (if, if-let, range forms, block/yield/include with and without context and parameters, yield-with-content), nested to depth 2 (thorough 3), under 4 variable origins (local only, VarMap, global, both); loop-variable capture over every ranger kind; distinct = distinct reference outputs"
 	runSpace(r, c07Flat)
 	runSpace(r, c07Nest)
 	runSpace(r, c07Capture)
+	runSpace(r, c07Lookup)
 	return map[string]interface{}{"atoms": c07NAtoms, "frames": c07NFrames, "traces_validated_against_impl": r.Evals()}
 }
 
